@@ -91,6 +91,7 @@ func runC10(s *kernel.Sim) {
 	// handed out at the roll-over instant).
 	bgYield := tp.Chance(1, 3)
 	advancing, settling := false, false
+	var stalls [][2]time.Duration // intervals in which the simulator held the roll-over goroutine back
 	s.Knobs["rollover_goroutine_schedulable"] = bgYield
 	s.YieldOn = func(point string, a []string, harness bool) bool {
 		if !harness {
@@ -278,6 +279,20 @@ func runC10(s *kernel.Sim) {
 			for _, p := range s.ParkedTasks() {
 				held = held || !p.Harness
 			}
+			// a fault: the roll-over goroutine, its timer fired, does not get to run for a
+			// while (a slow goroutine). The roll-over of this instant is late and is not
+			// judged; once it has run the queue is back on the grid of the windows
+			if held && t == nb && tp.Chance(1, 4) {
+				lag := time.Duration(1+tp.Choose(7)) * 100 * time.Millisecond
+				if lag >= W {
+					lag = W / 2
+				}
+				stalls = append(stalls, [2]time.Duration{s.Now(), s.Now() + lag})
+				s.Sleep(lag)
+				s.FaultFired("rollover_goroutine_stalled_past_the_window_boundary")
+				drainBG()
+				held = false
+			}
 			if held && len(order) < nArr && tp.Chance(1, 2) {
 				s.FaultFired("arrival_while_rollover_goroutine_waits_for_the_mutex")
 				startArrival()
@@ -407,6 +422,13 @@ func runC10(s *kernel.Sim) {
 			sk := k * W
 			if r.listenAt+TTL <= sk {
 				break // its TTL had really elapsed before this roll-over
+			}
+			stalled := false
+			for _, st := range stalls {
+				stalled = stalled || (st[0] <= sk && sk <= st[1])
+			}
+			if stalled {
+				continue // the roll-over of this instant was held back by the simulator
 			}
 			if atInstant[sk] < quota {
 				sig := "stranded"
